@@ -291,6 +291,20 @@ static void battery(NifFile& nif) {
 		nif.GetShapePartitions(sh, pinfo, triParts);
 		MatTransform xf;
 		nif.GetShapeTransformGlobalToSkin(sh, xf);
+		nif.CalcShapeTransformGlobalToSkin(sh, xf);
+		// per-bone queries with every index that is valid for the shape's own bone list
+		for (uint32_t bi = 0; bi < ids.size(); bi++) {
+			nif.GetShapeTransformSkinToBone(sh, bi, xf);
+			nif.GetShapeBoneTransform(sh, bi, xf);
+			BoundingSphere bs;
+			nif.GetShapeBoneBounds(sh, bi, bs);
+			std::unordered_map<uint16_t, float> w;
+			nif.GetShapeBoneWeights(sh, bi, w);
+		}
+		for (auto& bn : bones) {
+			nif.GetShapeTransformSkinToBone(sh, bn, xf);
+			nif.GetShapeBoneTransform(sh, bn, xf);
+		}
 	}
 	for (auto n : nif.GetNodes())
 		nif.GetParentNode(n);
